@@ -206,6 +206,11 @@ def check(rep, ctx):
             ev_miss("load_payload_module", [k, v, req], "UnknownAPIKey", (k, v, "request"))
             ev_miss("load_request_schema", [k, v], "UnknownAPIKey", (k, v))
             ev_miss("load_response_schema", [k, v], "UnknownAPIKey", (k, v))
+    # names are matched exactly: a different spelling of a known name is not a known name
+    for api, vs in sorted(versions_of.items()):
+        v0 = min(vs)
+        for variant in {api.upper(), api.capitalize(), api.replace("_", "-"), api + " ", "\u017f" + api[1:] if api.startswith("s") else api.upper()} - {api}:
+            ev_miss("load_entity_schema", [variant, v0, req], "UnknownEntity", (variant, v0, "request"))
     ev_miss("load_entity_schema", ["no_such_api", 0, req], "UnknownEntity", ("no_such_api", 0, "request"))
     ev_miss("load_entity_module", ["no_such_api", 0, req], "UnknownEntity", ("no_such_api", 0, "request"))
     if deferred and not rep.findings:
